@@ -248,33 +248,53 @@ func (m *supplyMonitor) After(c *Chain, w *World, br *BlockResult, outs []TxOutc
 			return pbt.Violf("C03/supply-shrank-unexplained", "block %d: supply changed by %s, documented events explain %s (mint %s) and dispute burns allow at most %s more", br.Height, actual, expected, mint, new(big.Int).Neg(lower))
 		}
 	}
-	// 3. 75/25 split, observable when nothing else touches the two pools
-	hasAggregate, hasTx := false, false
+	// 3. 75/25 split: what the mint module account sent to the reward pool and to the validator fee pool
+	// in this block, read from the bank module's transfer events (independent of what else touches the pools)
+	quarter := new(big.Int).Div(mint, big.NewInt(4))
+	mintAddr := authtypes.NewModuleAddress("mint").String()
+	toTBR, toFee, toOther := new(big.Int), new(big.Int), new(big.Int)
 	if br.Finalize != nil {
 		for _, ev := range br.Finalize.Events {
-			if ev.Type == "aggregate_report" {
-				hasAggregate = true
+			// block-level (BeginBlock/EndBlock) bank events: what the mint account spent and what the two pools received
+			if ev.Type != "coin_received" && ev.Type != "coin_spent" {
+				continue
+			}
+			var who, amount string
+			for _, a := range ev.Attributes {
+				switch a.Key {
+				case "receiver", "spender":
+					who = a.Value
+				case "amount":
+					amount = a.Value
+				}
+			}
+			x, ok := new(big.Int).SetString(strings.TrimSuffix(amount, BondDenom), 10)
+			if !ok {
+				continue
+			}
+			switch {
+			case ev.Type == "coin_received" && who == authtypes.NewModuleAddress("time_based_rewards").String():
+				toTBR.Add(toTBR, x)
+			case ev.Type == "coin_received" && who == authtypes.NewModuleAddress("fee_collector").String():
+				toFee.Add(toFee, x)
+			case ev.Type == "coin_spent" && who == mintAddr:
+				toOther.Add(toOther, x)
 			}
 		}
 	}
-	for _, o := range outs {
-		if o.Res != nil {
-			hasTx = true
-		}
+	// toOther now holds everything the mint account spent: it must be exactly what the two pools received
+	toOther.Sub(toOther, new(big.Int).Add(toTBR, toFee))
+	if want := new(big.Int).Sub(mint, quarter); toTBR.Cmp(want) != 0 {
+		return pbt.Violf("C03/split-reward-pool", "block %d: minted %s, the mint account sent %s to the reward pool, three quarters is %s", br.Height, mint, toTBR, want)
 	}
-	quarter := new(big.Int).Div(mint, big.NewInt(4))
-	if !hasAggregate {
-		dTBR := new(big.Int).Sub(moduleBal(c, "time_based_rewards").BigInt(), m.tbrBefore.BigInt())
-		want := new(big.Int).Sub(mint, quarter)
-		if dTBR.Cmp(want) != 0 && !hasTx {
-			return pbt.Violf("C03/split-reward-pool", "block %d: minted %s, reward pool received %s, three quarters is %s", br.Height, mint, dTBR, want)
-		}
+	if toFee.Cmp(quarter) != 0 {
+		return pbt.Violf("C03/split-fee-pool", "block %d: minted %s, the mint account sent %s to the validator fee pool, one quarter is %s", br.Height, mint, toFee, quarter)
 	}
-	if !hasTx && pure && slashBurn.Sign() == 0 {
-		dFee := new(big.Int).Sub(moduleBal(c, "fee_collector").Add(moduleBal(c, "distribution")).BigInt(), m.feeDistrBefore.BigInt())
-		if dFee.Cmp(quarter) != 0 {
-			return pbt.Violf("C03/split-fee-pool", "block %d: minted %s, validator fee pool received %s, one quarter is %s", br.Height, mint, dFee, quarter)
-		}
+	if toOther.Sign() != 0 {
+		return pbt.Violf("C03/split-other-recipient", "block %d: the mint account sent %s to an account that is neither pool", br.Height, toOther)
+	}
+	if bal := moduleBal(c, "mint"); !bal.IsZero() {
+		return pbt.Violf("C03/mint-account-retains", "block %d: the mint account retains %s", br.Height, bal)
 	}
 	if mint.Sign() > 0 {
 		m.mintBlocks++
@@ -318,7 +338,7 @@ func supplyProfile() *Profile {
 	w[OpClaimDeposit] = 3
 	w[OpPrivDirect] = 0
 	p := &Profile{Name: "supply", Weights: w, MinBlocks: 10, MaxBlocks: 30, MaxOps: 4, AbsentPM: 40, BadVarPM: 150, Setup: true, ThoroughScale: 3,
-		GapW: []int{4, 6, 10, 25, 5, 4, 3, 3, 3, 2, 2, 1, 1, 1}}
+		GapW: []int{4, 6, 10, 25, 5, 4, 3, 3, 3, 2, 2, 1, 1, 1, 4}}
 	p.Prefix = mintInitPrefix
 	return p
 }
